@@ -7,6 +7,7 @@ import (
 
 	"github.com/tetratelabs/wazero/verifharness/cfgreplay"
 	"github.com/tetratelabs/wazero/verifharness/fcache"
+	"github.com/tetratelabs/wazero/verifharness/memacc"
 	"github.com/tetratelabs/wazero/verifharness/memreplay"
 	"github.com/tetratelabs/wazero/verifharness/registry"
 )
@@ -19,6 +20,8 @@ var cmds = map[string]func([]string){
 	"gate-registry":     registry.Gate,
 	"replay-memory":     memreplay.Main,
 	"memory-concurrent": memreplay.Concurrent,
+	"replay-memacc":     memacc.Main,
+	"memacc-child":      memacc.Child,
 	"fc-child":          fcache.Child,
 	"fc-replay":         fcache.ReplayProc,
 	"fc-gate":           fcache.ReplayGate,
